@@ -9,12 +9,16 @@ EXPLANATION = ("AgentDef.route / hosting_cost / attribute access and create_agen
                "entry, the queried names and the kind of index (list, range, tuple of lists) are solver-chosen. Oracle: the "
                "cost model of the statement; a mass-created agent equals, field by field, the individually built one.")
 ASSUMPTIONS = ["costs are symbolic integers in [-2^20, 2^20]; names are drawn from small fixed sets of strings",
-               "extra attributes: capacity (symbolic) and a string attribute"]
+               "extra attributes: capacity (symbolic), a string attribute and attributes with unusual keyword names (_zone, Routes2, default, x=None)"]
 BOUNDS = {"quick": "names in {a1,a2,a3}, computations in {c1,c2}; every subset of specific routes (incl. an entry for the agent itself) / hosting costs; index kinds list(2), range(1..3,11), tuple of two lists",
           "thorough": "same (the space is exhausted in quick)"}
 OUTSIDE = "arbitrary strings as names (only a fixed small alphabet of names), float costs"
 CAP_S = {"quick": 600, "thorough": 1800}
 LIM = 2 ** 20
+
+
+# extra attributes with unusual but legal keyword names
+EXTRA = {"_zone": "kitchen", "Routes2": 3, "default": "d", "x": None}
 
 
 def jobs(tier):
@@ -52,10 +56,12 @@ def run(eng, p):
         if p["kind"] == "single":
             name = "a1"
             a = AgentDef(name, default_route=dr, routes=dict(routes), default_hosting_cost=dh, hosting_costs=dict(hosting),
-                         capacity=cap, foo="bar")
+                         capacity=cap, foo="bar", **EXTRA)
             route, host = _model(name, routes, hosting, dr, dh)
             conds = [_same(a.route(o), route(o)) for o in ("a1", "a2", "a3", "zz")]
             conds += [_same(a.hosting_cost(c), host(c)) for c in ("c1", "c2", "c9")]
+            conds += [getattr(a, k) == v for k, v in EXTRA.items()]
+            conds += [sorted(a.extra_attr()) == sorted(["capacity", "foo"] + list(EXTRA))]
             conds += [_same(a.capacity, cap), a.foo == "bar", a.name == name, _same(a.default_hosting_cost, dh),
                       _same(a.default_route, dr)]
             eng.notes["outcome"] = {"routes": sorted(routes), "hosting": sorted(hosting)}
@@ -69,7 +75,7 @@ def run(eng, p):
         kind = eng.pick(["list", "range3", "range11", "tuple"], "index_kind")
         idx = {"list": ["1", "2"], "range3": range(3), "range11": range(9, 11), "tuple": (["a", "b"], ["1", "2"])}[kind]
         agents = create_agents("a", idx, default_route=dr, routes=dict(routes), default_hosting_costs=dh,
-                               hosting_costs=dict(hosting), capacity=cap, foo="bar")
+                               hosting_costs=dict(hosting), capacity=cap, foo="bar", **EXTRA)
         if kind == "list":
             expected = {"a1": "a1", "a2": "a2"}
         elif kind == "range3":
@@ -86,7 +92,7 @@ def run(eng, p):
                 continue
             got = agents[key]
             ref = AgentDef(name, default_route=dr, routes=dict(routes), default_hosting_cost=dh, hosting_costs=dict(hosting),
-                           capacity=cap, foo="bar")
+                           capacity=cap, foo="bar", **EXTRA)
             conds.append(got.name == ref.name)
             m_route, m_host = _model(name, routes, hosting, dr, dh)
             conds += [_same(got.route(o), m_route(o)) for o in ("a1", "a2", "a3", name)]       # the cost model itself
@@ -96,6 +102,7 @@ def run(eng, p):
             conds.append(_same(got.default_hosting_cost, ref.default_hosting_cost))
             conds.append(_same(got.capacity, ref.capacity))
             conds.append(got.foo == ref.foo)
+            conds += [getattr(got, k) == v for k, v in EXTRA.items()]
             conds.append(sorted(got.extra_attr()) == sorted(ref.extra_attr()))
         eng.prove(F.and_(conds), "a mass-created agent differs from the individually built agent with the same arguments",
                   detail=kind)
